@@ -316,9 +316,18 @@ void UtilContext::print8(const char *token)
   uint32_t start, end;
   int ptr = 0;
 
-  // FIXME - is this right?
+  // The range is start to end inclusive (as in disasm), in address units;
+  // without an end 128 bytes are shown.
   if (get_range(token, &start, &end) == -1) { return; }
   if (start >= end) { end = start + 128; }
+    else
+  {
+    // Go on to the last byte of the end address (0xffffffff can only be
+    // the end of the loop, not a part of it).
+    end = (end / bytes_per_address) * bytes_per_address +
+          (bytes_per_address - 1);
+    if (end != 0xffffffff) { end++; }
+  }
 
   while (start < end)
   {
@@ -360,6 +369,14 @@ void UtilContext::print16(const char *token)
 
   if (get_range(token, &start, &end) == -1) { return; }
   if (start >= end) { end = start + 128; }
+    else
+  {
+    // Go on to the last byte of the end address (0xffffffff can only be
+    // the end of the loop, not a part of it).
+    end = (end / bytes_per_address) * bytes_per_address +
+          (bytes_per_address - 1);
+    if (end != 0xffffffff) { end++; }
+  }
 
   int mask = (alignment - 1) & 0x1;
 
@@ -428,6 +445,14 @@ void UtilContext::print32(const char *token)
 
   if (get_range(token, &start, &end) == -1) { return; }
   if (start >= end) { end = start + 128; }
+    else
+  {
+    // Go on to the last byte of the end address (0xffffffff can only be
+    // the end of the loop, not a part of it).
+    end = (end / bytes_per_address) * bytes_per_address +
+          (bytes_per_address - 1);
+    if (end != 0xffffffff) { end++; }
+  }
 
   if ((start & (alignment - 1)) != 0)
   {
